@@ -9,6 +9,7 @@
   What a `def` can express about a parameter is everything but the upgraded annotation: `Param.bare`.
 -/
 import Sigverif.Lemmas.C20Text
+import Sigverif.Lemmas.C20Mod
 namespace SV
 
 /-- star parameters carry no default (`inspect.Parameter` refuses one) -/
@@ -35,6 +36,29 @@ theorem read_sig_native (ps : List Piece) (h : ∀ p ∈ ps, p.chevFree = true) 
     (readSig false false false ps).anns = [] :=
   readSig_native ps h
 
+/-- **`read_sig` with `use_modifiers_kwoargs`** (any setting of the two other options), on the text `str(sig)[1:-1]` of a
+    signature `pk ++ *va ++ ko ++ **vk` without positional-only parameters, whatever the number of parameters: the generated
+    `def` lists the required parameters (positional-or-keyword first, then the keyword-only ones, each group in its order),
+    then the defaulted ones likewise, then `*va` and `**vk`; `kwoarg_n` names exactly the keyword-only parameters in order;
+    `posoarg_n` is empty; with `use_modifiers_annotate` the annotations are collected for the decorator in the order of the
+    text and the `def` carries none.  (This is the index bookkeeping of `read_sig`: `default_index`, `params.insert(-1, …)`.) -/
+theorem read_sig_kwoargs (ua upo : Bool) (pk ko : List Param) (va vk : Option Param)
+    (hpk : ∀ p ∈ pk, p.kind = .pk) (hko : ∀ p ∈ ko, p.kind = .ko)
+    (hva : ∀ p ∈ va, p.kind = .vp) (hvk : ∀ p ∈ vk, p.kind = .vk)
+    (hsorted : pk = reqs pk ++ dfls pk) (hvad : ∀ v ∈ va, v.dflt = none) (hvkd : ∀ v ∈ vk, v.dflt = none) :
+    let r := readSig ua upo true (pieces (pk ++ va.toList ++ ko ++ vk.toList))
+    r.params = ((reqs pk ++ reqs ko).map (itemU ua 0)) ++ ((dfls pk ++ dfls ko).map (itemU ua 0))
+                ++ (va.toList.map (itemU ua 1)) ++ (vk.toList.map (itemU ua 2)) ∧
+    r.kwo = ko.map (·.name) ∧ r.poso = [] ∧
+    r.anns = (pk ++ va.toList ++ ko ++ vk.toList).foldl (annUpd ua) [] := by
+  intro r
+  have e : r = readSig ua upo true (pk.map plainP ++ (midPieces va ko ++ (ko.map plainP ++ vkPieces vk))) := by
+    show readSig ua upo true _ = _
+    rw [pieces_buckets pk ko va vk hpk hko hva hvk]
+    simp only [List.append_assoc]
+  rw [e]
+  exact readSig_kwo ua upo pk ko va vk hsorted hvad hvkd
+
 /-! non-vacuity: `(a, /, b: 40 = 3, *args, c, d=4, **kwargs)` -/
 def exT : List Param :=
   [⟨1, .po, none, none, .empty⟩, ⟨2, .pk, some 3, some 40, .empty⟩, ⟨11, .vp, none, none, .empty⟩,
@@ -49,5 +73,15 @@ example : pieces exT = [.plain 1 none none, .slash, .plain 2 (some 40) (some 3),
 example : sParams false false false (pieces exT) = .ok exT := by rfl
 /-- a text the reader must refuse: a bare `*` with nothing after it -/
 example : sParams false false false [.plain 1 none none, .bare] = .error .syntaxError := by rfl
+
+/-! non-vacuity of `read_sig_kwoargs`: `(a, b=3, *args, c=4, d, **kwargs)` — a required keyword-only parameter after a
+    defaulted one -/
+def exK : List Param := [⟨1, .pk, none, none, .empty⟩, ⟨2, .pk, some 3, some 40, .empty⟩]
+def exKo : List Param := [⟨3, .ko, some 4, none, .empty⟩, ⟨4, .ko, none, some 41, .empty⟩]
+example : exK = reqs exK ++ dfls exK := by decide
+example : (readSig false false true (pieces (exK ++ (some (⟨11, .vp, none, none, .empty⟩ : Param)).toList ++ exKo ++
+    (some (⟨12, .vk, none, none, .empty⟩ : Param)).toList))).params =
+    [.par 0 1 none none, .par 0 4 (some 41) none, .par 0 2 (some 40) (some 3), .par 0 3 none (some 4),
+     .par 1 11 none none, .par 2 12 none none] := by decide
 
 end SV
